@@ -140,7 +140,7 @@ def run(pid, tier):
     meta = {}
     for (t, text, cfgname, toks, diags, o) in mism:
         traces.append(lextrace.record(text, t))
-        meta[t] = ("model", text, cfgname, toks, diags)
+        meta[t] = ("model", text, cfgname, toks, diags, lexmodel.norm_observed(o)[1], lexmodel.norm_observed(o)[0] == toks)
     for f in files:
         try:
             text = open(f).read()
@@ -158,6 +158,15 @@ def run(pid, tier):
     for t, v in sorted(verdicts.items()):
         m = meta[t]
         tr = next(x for x in traces if x["id"] == t)
+        if v[law] == 0 and pid == "C09" and m[0] == "model" and m[6] and not (v["sites"] & set(kk)):
+            # the tokens are the model's: the property also says that the position printed with a diagnostic points at the
+            # offending character -- same diagnostics (code, level), different highlight positions = a position defect
+            pd, od = m[4], m[5]
+            if sorted((d[0], d[1]) for d in pd) == sorted((d[0], d[1]) for d in od) and sorted(pd) != sorted(od):
+                R.violation(dict(kind="diagnostic_position", input=m[1], predicted=[list(map(str, d)) for d in pd],
+                                 observed=[list(map(str, d)) for d in od],
+                                 note="tokens and diagnostic codes equal the model's, a highlight position does not"))
+                continue
         if v[law] == 0:
             R.validated()
             if v["mach"] != 0 or m[0] == "model":
@@ -202,6 +211,14 @@ def replay(pid, path):
     if text is None:
         print("replay record has no input")
         return 2
+    if rec.get("kind") == "diagnostic_position":
+        od = lexmodel.norm_observed(observe.lex(text))[1]
+        obs = sorted([list(map(str, d)) for d in od])
+        print("predicted:", sorted(rec["predicted"]), "observed:", obs)
+        if obs != sorted(rec["predicted"]):
+            print(f"VIOLATION property={pid} replay={path}")
+            return 1
+        return 0
     tr = lextrace.record(text, 1)
     kk = known_keys()
     v = lextrace.validate([tr], set(k for k in kk if k in lexmodel_devnames()), name=f"replay-{pid}")[1]
